@@ -236,7 +236,7 @@ def run(ctx):
     # atom.group back-pointer is set by Group.__init__ only
     gi = gmod.func('Group.__init__')
     ctx.ob('C01.R3', 'atom.group:set-by-constructor',
-           any(isinstance(s, ast.Assign) and norm(s.targets[0]) == 'atom.group'
+           any(isinstance(s, ast.Assign) and norm(s.targets[0]) == '%s.group' % gi.args.args[1].arg
                and norm(s.value) == 'self' for s in walk_no_nested(gi)),
            'Group.__init__ records the group on its atom', gmod, gi)
 
